@@ -762,6 +762,8 @@ BUILTINS['bisect'] = Py(_bisect(True), 'bisect')
 
 
 def _len(sk, n, x):
+    if isinstance(x, Bag) and '__len__' in x._a:
+        return x._a['__len__']
     if x is None or isinstance(x, Tok):
         raise Violation('SK2', 'len() of placeholder %r' % (x,), n)
     return len(x)
